@@ -19,7 +19,7 @@ import (
 // from a state produced by the real create path, then one follow-up sync.
 
 var c06Methods = []string{"<unset>", "", "OnDelete", "Recreate", "InPlace", "RollingRecreate", "RollingInPlace", "Bogus"}
-var c06Classes = []string{"equal", "owned", "foreign", "status", "sysmeta", "owned+foreign"}
+var c06Classes = []string{"equal", "owned", "foreign", "status", "sysmeta", "owned+foreign", "foreign-item-in-emptied-list"}
 
 type c06Case struct {
 	Method   string
@@ -87,6 +87,10 @@ func c06Desired(k *sim.Kind, names []string, c c06Case, second bool) kit.L {
 			if second {
 				kit.Field(o, "2", "spec", "v")
 			}
+		case "foreign-item-in-emptied-list":
+			// the hook names the list and wants nothing in it (the same answer in both phases); someone else has an
+			// item of their own in it: not a difference the controller owns
+			kit.Field(o, kit.L{}, "spec", "ports")
 		case "status":
 			kit.Field(o, int64(2), "status", "x")
 		case "sysmeta":
@@ -154,6 +158,9 @@ func c06Run(c c06Case) []mc.Finding {
 			}
 			if c.Class == "status" {
 				kit.Field(o, int64(1), "status", "x")
+			}
+			if c.Class == "foreign-item-in-emptied-list" {
+				kit.Field(o, []interface{}{map[string]interface{}{"name": "someone-elses", "port": int64(1)}}, "spec", "ports")
 			}
 			if c.Deleting {
 				kit.Finalizers(o, "ex.io/hold")
